@@ -521,3 +521,117 @@ func ruleK2(p *Prog, r *Report) {
 	}
 	r.Floor(R, "Count implementations of elements and element lists", 5, n)
 }
+
+// E4 undefined identifiers are refused at the API boundary (C18): each entry point that takes the identifier of a
+// slab to open, store or remove refuses SlabIDUndefined - a comparison of that parameter with SlabIDUndefined whose
+// "equal" edge leads to an error return built by NewSlabIDError*, before anything else happens (the ordering is
+// R6's business). The entry points are the contract table below; a missing or inverted guard is a violation.
+var undefinedIDEntryPoints = []struct{ recv, name string }{
+	{"", "NewArrayWithRootID"},
+	{"", "NewMapWithRootID"},
+	{"PersistentSlabStorage", "Store"},
+	{"PersistentSlabStorage", "Remove"},
+}
+
+func ruleE4(p *Prog, r *Report) {
+	const R = "E4"
+	n := 0
+	for _, ep := range undefinedIDEntryPoints {
+		var f *ssa.Function
+		if ep.recv == "" {
+			f = p.PkgFunc(ep.name)
+		} else {
+			f = p.Method(ep.recv, ep.name)
+		}
+		cons := "undefined-id-refused:" + ep.name
+		if ep.recv != "" {
+			cons = "undefined-id-refused:(*" + ep.recv + ")." + ep.name
+		}
+		if f == nil {
+			r.Unk(R, cons, "-", "entry point not found")
+			continue
+		}
+		n++
+		// the SlabID parameter
+		var idp *ssa.Parameter
+		for _, prm := range f.Params {
+			if typeName(prm.Type()) == "SlabID" {
+				idp = prm
+			}
+		}
+		if idp == nil {
+			r.Unk(R, cons, p.Pos(f.Pos()), "no SlabID parameter")
+			continue
+		}
+		good := false
+		why := "no comparison of the identifier with SlabIDUndefined guards the entry point"
+		for _, b := range f.Blocks {
+			ifi, ok := b.Instrs[len(b.Instrs)-1].(*ssa.If)
+			if !ok {
+				continue
+			}
+			bo, ok := ifi.Cond.(*ssa.BinOp)
+			if !ok || (bo.Op != token.EQL && bo.Op != token.NEQ) {
+				continue
+			}
+			isUndef := func(v ssa.Value) bool {
+				u, ok := canon(v).(*ssa.UnOp)
+				if !ok {
+					return false
+				}
+				g, ok := u.X.(*ssa.Global)
+				return ok && g.Name() == "SlabIDUndefined"
+			}
+			isID := func(v ssa.Value) bool { return sameValue(v, idp) }
+			if !((isID(bo.X) && isUndef(bo.Y)) || (isID(bo.Y) && isUndef(bo.X))) {
+				continue
+			}
+			eqSucc := 0
+			if bo.Op == token.NEQ {
+				eqSucc = 1
+			}
+			// the "equal" edge must end in an error return built by NewSlabIDError*, the other edge must not be that return
+			tb := b.Succs[eqSucc]
+			rejects := false
+			for depth := 0; tb != nil && depth < 3; depth++ {
+				last := tb.Instrs[len(tb.Instrs)-1]
+				if ret, ok := last.(*ssa.Return); ok {
+					cl, ev := classifyReturn(ret)
+					if cl == retError {
+						if c, ok := canon(ev).(*ssa.Call); ok && c.Call.StaticCallee() != nil && strings.HasPrefix(c.Call.StaticCallee().Name(), "NewSlabIDError") {
+							rejects = true
+						}
+					}
+					break
+				}
+				if _, ok := last.(*ssa.Jump); ok {
+					tb = tb.Succs[0]
+					continue
+				}
+				break
+			}
+			if !rejects {
+				why = "the comparison with SlabIDUndefined at " + p.InstrPos(ifi) + " does not lead to a SlabIDError on its 'equal' edge (inverted or redirected guard)"
+				continue
+			}
+			// it must guard the whole function: the block is the entry block or dominates every other exit
+			if b == f.Blocks[0] || b.Dominates(f.Blocks[len(f.Blocks)-1]) {
+				good = true
+			} else {
+				// every success return is dominated by the not-equal edge
+				all := true
+				for _, ret := range returnsOf(f) {
+					if cl, _ := classifyReturn(ret); cl != retError && !edgeDominates(b, 1-eqSucc, ret.Block()) {
+						all = false
+					}
+				}
+				good = all
+				if !all {
+					why = "the undefined-identifier guard does not dominate every success return"
+				}
+			}
+		}
+		r.Decide(good, R, cons, p.Pos(f.Pos()), "SlabIDUndefined is refused with a SlabIDError before anything else", why+": a request with an undefined identifier is served instead of being refused")
+	}
+	r.Floor(R, "entry points that must refuse an undefined identifier", 4, n)
+}
